@@ -1,10 +1,11 @@
 """C06 - every partial read agrees with the corresponding part of the full read.
 
 State space: handles derived from the root handle (slices, picks, pickle, copy,
-deepcopy, re-open, file object), explored breadth-first to depth 2 and
-de-duplicated on (addressed row groups, kind of last derivation); in every state
-all terminal reads are enumerated and compared with the projection of ONE full
-read of the root.
+deepcopy, re-open, file object, list of files), explored breadth-first to depth 2
+and de-duplicated on (addressed row groups, kind of last derivation); in every
+state all terminal reads are enumerated and compared with the projection of the
+full reads of the root taken under the same options; after the reads, and after
+deriving children, the handle must still describe and deliver the same part.
 """
 import itertools
 
@@ -12,26 +13,55 @@ ID = "C06"
 LEVEL = "model_checking"
 FLAVOUR = "plain"
 TIMEOUT = 600
-RULE = ("per dataset (6: simple 3 row groups, foreign file with an empty row group, hive 4 row groups, hive "
-        "partitioned, written index, nullable+datetime): states = handles reachable in <= 2 derivation steps over "
-        "{pf[i] for every i, pf[i:j:k] for every i,j in {None,-(n+1)..n+1} and k in {None,1,2,3,-1,-2}, "
-        "pickle round trip, copy, deepcopy, re-open from path, open from file object}, de-duplicated on (row-group "
-        "index tuple, last derivation kind); transitions = derivations executed on the real handle; terminal reads "
-        "in every state: to_pandas(columns=S) for every ordered subset of <= 3 columns (<= 2 in quick), index in "
-        "{None, False, name}, iter_row_groups with/without columns and categories, head(n) for n in 0..rows+1, "
-        "count(), len(), info; oracle = projection of one full read of the root")
+RULE = ("per dataset (13; thorough 14): simple file of 3 row groups with two int columns interleaved with text / "
+        "categorical / float (thorough also: 7 columns, two text and two float), foreign file with an empty row group "
+        "and an optional int whose NULLs lie in one row group, foreign file with one dictionary per row group, foreign "
+        "pandas-categorical file with one dictionary per row group and object column labels, the same with a PLAIN "
+        "fallback page in one row group, hive 4 row groups with an ordered categorical, hive partitioned, foreign hive "
+        "directories p=1/p=x/p=2 without partition metadata, written int index + two int columns, tz-aware "
+        "DatetimeIndex, two-level MultiIndex, nullable+datetime, file without row groups. "
+        "States = handles reachable in <= 2 derivation steps over {pf[i] for every i, pf[i:j:k] for every i,j in "
+        "{None,-(n+1)..n+1} and k in {None,1,2,3,-1,-2}, pickle round trip, copy, deepcopy, re-open from path, open "
+        "from file object}, and for hive4 (thorough: every hive dataset) from a root opened on the list of its files "
+        "(root, pickle, every pick; thorough: every slice), de-duplicated on (row-group index tuple, derivation "
+        "kinds); quick restricts the seven foreign-dictionary / foreign-hive / index / empty datasets to first steps "
+        "{root, pick, slice, pickle} and second steps {pickle, pick (, slice unless the first step was a slice)}; "
+        "transitions = derivations executed on the real handle. "
+        "Terminal reads in every state (menu A): to_pandas(columns=S) for every ordered subset of <= 2 columns (<= 1 "
+        "for those seven datasets in quick; <= 3 in thorough, <= 2 for the 7-column file) x index in {None, False, "
+        "stored name(s)}, iter_row_groups with/without columns and categories, head(n) for n in 0..rows+1 (also on "
+        "handles without row groups), count(), len(), info; then count/len/info again and a full read through a "
+        "pickled (file object: copied) image of the handle. Menu B, in states reached in <= 1 step (thorough: every "
+        "state): to_pandas and iter_row_groups with categories=V for V in {[], [each categorical / dictionary "
+        "column]} (run first, so that what they leave behind is seen by menu A), to_pandas(index=c) for EVERY column c "
+        "(data, stored index, partition) and the stored index as a list, iter_row_groups(index=False | stored), "
+        "head(n, columns=[c]) and head(n, index=False) for n in {1, rows}. After all children of a handle were "
+        "derived and read: its count/len/info, values and pickled image once more; the same for the root at the end. "
+        "Oracle = projection of the root's full reads under the same options: values, columns and their order, dtype "
+        "of the column labels, dtype kinds (also of empty parts), ordered flag and label subset of categoricals, index "
+        "values / names / dtype kind unless it is a range index")
 ASSUMPTIONS = ["labels of an automatically generated range index are positional and not compared",
-               "row order inside a handle follows its row-group list"]
+               "row order inside a handle follows its row-group list",
+               "a handle without row groups knows no partition columns: only its row count is judged",
+               "the raw thrift field fmd.num_rows of a derived handle is not a reported count (count(), info, len are)"]
 
-DATASETS = ["simple3", "foreign_empty", "hive4", "hive_part", "written_index", "nullable_dt"]
+DATASETS = ["simple3", "foreign_empty", "foreign_dict", "foreign_cat", "foreign_catfb", "hive4", "hive_part",
+            "foreign_hive", "written_index", "dt_index", "multi_index", "nullable_dt", "empty0"]
+THOROUGH_DATASETS = ["simple7"]
 FIRST = ["root", "pick", "slice", "pickle", "copy", "deepcopy", "reopen", "fileobj"]
+# datasets whose subject is not the block layout: single columns only in the quick tier
+NARROW = {"foreign_dict", "foreign_cat", "foreign_catfb", "foreign_hive", "dt_index", "multi_index", "empty0"}
+FIRST_NARROW = ["root", "pick", "slice", "pickle"]
+FILELIST = {"hive4": "quick", "hive_part": "thorough", "foreign_hive": "thorough"}
 
 
 def points(tier):
     pts = []
-    for ds in DATASETS:
-        for first in FIRST:
+    for ds in DATASETS + (THOROUGH_DATASETS if tier == "thorough" else []):
+        for first in (FIRST_NARROW if (ds in NARROW and tier != "thorough") else FIRST):
             pts.append({"ds": ds, "first": first, "tier": tier})
+        if ds in FILELIST and (tier == "thorough" or FILELIST[ds] == "quick"):
+            pts.append({"ds": ds, "first": "filelist", "tier": tier})
     return pts
 
 
@@ -48,46 +78,118 @@ def crash_sig(point, res):
 
 
 # ---------------------------------------------------------------------------------
+def _foreign(d, name, cols, rgs, kv=None, created_by="parquet-mr version 1.12.3"):
+    import os
+    from mc.specpq import writer as W
+    data = W.write_file({"created_by": created_by, "columns": cols, "row_groups": rgs, "kv": kv})
+    path = os.path.join(d, name)
+    with open(path, "wb") as f:
+        f.write(data)
+    return path
+
+
+def _dict_chunk(rows, fallback=False):
+    """dictionary-encoded BYTE_ARRAY chunk with the dictionary of exactly its own values (in order of appearance)"""
+    dic = []
+    for v in rows:
+        if v is not None and v not in dic:
+            dic.append(v)
+    pages = [{"n": len(rows), "enc": "PLAIN_DICTIONARY", "v": 1}]
+    if fallback:
+        pages = [{"n": 1, "enc": "PLAIN_DICTIONARY", "v": 1}, {"n": len(rows) - 1, "enc": "PLAIN", "v": 1}]
+    return {"rows": rows, "codec": 0, "dictionary": dic, "pages": pages,
+            "stats": {"null_count": sum(1 for v in rows if v is None)}}
+
+
 def build(ds, d):
-    """-> (open_fn(kind) -> ParquetFile, columns, index_name)"""
-    import io
+    """-> (path, columns, index_names, single_file, extra)
+    extra: cats = columns to vary the `categories` argument on"""
+    import json
     import os
     import pandas as pd
-    import numpy as np
     import fastparquet
-    if ds == "simple3":
+    if ds in ("simple3", "simple7"):
         df = pd.DataFrame({"a": range(7), "s": ["x", None, "z", "w", None, "u", "t"],
+                           "a2": [70, 60, 50, 40, 30, 20, 10],
                            "c": pd.Categorical(list("abcabca")), "f": [0.5, 1.5, None, 3.5, 4.5, 5.5, 6.5]})
+        if ds == "simple7":
+            df["s2"] = ["k", "l", None, "n", "o", None, "q"]
+            df["f2"] = [-0.5, None, -2.5, -3.5, -4.5, -5.5, None]
         path = os.path.join(d, "t.parquet")
         fastparquet.write(path, df, row_group_offsets=[0, 3, 4], write_index=False)
-        return path, ["a", "s", "c", "f"], None, True
+        return path, list(df.columns), [], True, {"cats": ["c"]}
     if ds == "foreign_empty":
-        from mc.specpq import writer as W
-        cols = [{"name": "a", "ptype": 2, "rep": "required"}, {"name": "s", "ptype": 6, "rep": "optional", "ct": 0}]
+        cols = [{"name": "a", "ptype": 2, "rep": "required"}, {"name": "s", "ptype": 6, "rep": "optional", "ct": 0},
+                {"name": "n", "ptype": 2, "rep": "optional"}]
         rgs = []
-        for rows in ([1, 2], [], [3, 4, 5], [6]):
+        for k, rows in enumerate(([1, 2], [], [3, 4, 5], [6])):
+            nn = [(None if (k == 0 and i == 0) else 100 + v) for i, v in enumerate(rows)]   # NULL only in row group 0
             rgs.append({"a": {"rows": rows, "codec": 0, "stats": {"null_count": 0}},
                         "s": {"rows": [None if v % 2 else ("v%d" % v).encode() for v in rows], "codec": 0,
-                              "stats": {"null_count": sum(1 for v in rows if v % 2)}}})
-        data = W.write_file({"created_by": "parquet-mr version 1.12.3", "columns": cols, "row_groups": rgs})
-        path = os.path.join(d, "f.parquet")
-        open(path, "wb").write(data)
-        return path, ["a", "s"], None, True
+                              "stats": {"null_count": sum(1 for v in rows if v % 2)}},
+                        "n": {"rows": nn, "codec": 0, "stats": {"null_count": sum(1 for v in nn if v is None)}}})
+        path = _foreign(d, "f.parquet", cols, rgs)
+        return path, ["a", "s", "n"], [], True, {"cats": []}
+    if ds in ("foreign_dict", "foreign_cat", "foreign_catfb"):
+        cols = [{"name": "a", "ptype": 2, "rep": "optional"}, {"name": "s", "ptype": 6, "rep": "optional", "ct": 0}]
+        rgs = []
+        for k, (av, sv) in enumerate((([1, None], [b"x", b"y"]), ([3, 4, 5], [b"z", b"y", None]),
+                                      ([6, 7], [b"q", b"x"]))):
+            rgs.append({"a": {"rows": av, "codec": 0, "stats": {"null_count": sum(1 for v in av if v is None)}},
+                        "s": _dict_chunk(sv, fallback=(ds == "foreign_catfb" and k == 1))})
+        kv = None
+        created = "parquet-mr version 1.12.3"
+        if ds != "foreign_dict":
+            created = "parquet-cpp-arrow version 14.0.0"
+            # the column labels are declared as an object Index (what pandas < 3 writers record), not the default
+            pmd = {"index_columns": [], "pandas_version": "2.0.0", "column_indexes": [
+                {"name": None, "field_name": None, "pandas_type": "unicode", "numpy_type": "object",
+                 "metadata": {"encoding": "UTF-8"}}], "columns": [
+                {"name": "a", "field_name": "a", "pandas_type": "int64", "numpy_type": "Int64", "metadata": None},
+                {"name": "s", "field_name": "s", "pandas_type": "categorical", "numpy_type": "int8",
+                 "metadata": {"num_categories": 4, "ordered": False}}]}
+            kv = [("pandas", json.dumps(pmd))]
+        path = _foreign(d, "g.parquet", cols, rgs, kv=kv, created_by=created)
+        return path, ["a", "s"], [], True, {"cats": ["s"]}
     if ds == "hive4":
-        df = pd.DataFrame({"a": range(9), "s": ["r%d" % i for i in range(9)], "c": pd.Categorical(list("xyzxyzxyz"))})
+        df = pd.DataFrame({"a": range(9), "s": ["r%d" % i for i in range(9)],
+                           "c": pd.Categorical(list("xyzxyzxyz"), categories=list("zyx"), ordered=True)})
         path = os.path.join(d, "ds")
         fastparquet.write(path, df, file_scheme="hive", row_group_offsets=[0, 2, 5, 6], write_index=False)
-        return path, ["a", "s", "c"], None, False
+        return path, ["a", "s", "c"], [], False, {"cats": ["c"]}
     if ds == "hive_part":
         df = pd.DataFrame({"a": range(8), "s": ["r%d" % i for i in range(8)], "p": [1, 2, 1, 2, 1, 2, 1, 2]})
         path = os.path.join(d, "dsp")
         fastparquet.write(path, df, file_scheme="hive", partition_on=["p"], row_group_offsets=[0, 4], write_index=False)
-        return path, ["a", "s", "p"], None, False
+        return path, ["a", "s", "p"], [], False, {"cats": []}
+    if ds == "foreign_hive":
+        # directories written one by one, as another tool would: no partition metadata, no _metadata file; one
+        # directory name does not parse as a number
+        path = os.path.join(d, "fh")
+        for k, (dirn, vals) in enumerate((("p=1", [0, 1]), ("p=x", [2, 3, 4]), ("p=2", [5]))):
+            os.makedirs(os.path.join(path, dirn))
+            fastparquet.write(os.path.join(path, dirn, "part.%d.parquet" % k),
+                              pd.DataFrame({"a": vals, "s": ["h%d" % v for v in vals]}), write_index=False)
+        return path, ["a", "s", "p"], [], False, {"cats": []}
     if ds == "written_index":
-        df = pd.DataFrame({"a": range(6), "s": list("qwerty")}, index=pd.Index([10, 20, 30, 40, 50, 60], name="idx"))
+        df = pd.DataFrame({"a": range(6), "s": list("qwerty"), "b": [60, 50, 40, 30, 20, 10]},
+                          index=pd.Index([10, 20, 30, 40, 50, 60], name="idx"))
         path = os.path.join(d, "i.parquet")
         fastparquet.write(path, df, row_group_offsets=[0, 2, 4])
-        return path, ["a", "s"], "idx", True
+        return path, ["a", "s", "b", "idx"], ["idx"], True, {"cats": []}
+    if ds == "dt_index":
+        ix = pd.DatetimeIndex(pd.to_datetime([1711846800 * 10 ** 9 + i * 1800 * 10 ** 9 for i in range(6)]),
+                              name="ts").tz_localize("UTC").tz_convert("Europe/Paris")
+        df = pd.DataFrame({"a": range(6), "v": [0.5, None, 2.5, 3.5, 4.5, 5.5]}, index=ix)
+        path = os.path.join(d, "dt.parquet")
+        fastparquet.write(path, df, row_group_offsets=[0, 1, 4])
+        return path, ["a", "v"], ["ts"], True, {"cats": []}
+    if ds == "multi_index":
+        df = pd.DataFrame({"a": range(6), "s": list("qwerty")},
+                          index=pd.MultiIndex.from_arrays([[1, 1, 2, 2, 3, 3], list("xyxyxy")], names=["i1", "i2"]))
+        path = os.path.join(d, "mi.parquet")
+        fastparquet.write(path, df, row_group_offsets=[0, 2, 3])
+        return path, ["a", "s"], ["i1", "i2"], True, {"cats": []}
     if ds == "nullable_dt":
         df = pd.DataFrame({"n": pd.array([1, None, 3, 4, None, 6], dtype="Int64"),
                            "t": pd.to_datetime([0, 10 ** 9, None, 3 * 10 ** 9, 4 * 10 ** 9, 5 * 10 ** 9]),
@@ -96,7 +198,12 @@ def build(ds, d):
                                 .dt.tz_localize("UTC").dt.tz_convert("Europe/Paris")})
         path = os.path.join(d, "n.parquet")
         fastparquet.write(path, df, row_group_offsets=[0, 1, 4], write_index=False)
-        return path, ["n", "t", "b", "z"], None, True
+        return path, ["n", "t", "b", "z"], [], True, {"cats": []}
+    if ds == "empty0":
+        df = pd.DataFrame({"a": pd.Series([], dtype="int64"), "s": pd.Series([], dtype=object)})
+        path = os.path.join(d, "e.parquet")
+        fastparquet.write(path, df, write_index=False)
+        return path, ["a", "s"], [], True, {"cats": []}
     raise KeyError(ds)
 
 
@@ -136,25 +243,24 @@ def derive(pf, kind, arg, path, single_file, keep):
 
 
 def run(p):
+    import copy
+    import os
+    import pickle
     import fastparquet
     from mc.scratch import scratch
     from mc import oracles as O
     ds, first, thorough = p["ds"], p["first"], p["tier"] == "thorough"
     d = scratch()
-    path, columns, index_name, single_file = build(ds, d)
-    root = fastparquet.ParquetFile(path)
+    path, columns, index_names, single_file, extra = build(ds, d)
+    if first == "filelist":
+        files = []
+        for dirpath, _, names in sorted(os.walk(path)):
+            files += [os.path.join(dirpath, f) for f in sorted(names) if f.endswith(".parquet")]
+        root = fastparquet.ParquetFile(files, root=path)
+    else:
+        root = fastparquet.ParquetFile(path)
     n = len(root.row_groups)
     sizes = [rg.num_rows for rg in root.row_groups]
-    full = root.to_pandas()
-    fullcols = {c: O.series_to_list(full[c]) for c in full.columns}
-    fullidx = O.series_to_list(full.index.to_series()) if index_name else None
-
-    def kind_of(frame, c):
-        a = frame[c].array.dtype
-        a = getattr(a, "numpy_dtype", a) if type(a).__name__ == "NumpyEADtype" else a
-        k = O.dtype_kind(a)
-        return k if k[0] != "category" else ("category",)
-    fullkind = {c: kind_of(full, c) for c in full.columns}
     bounds = [0]
     for s in sizes:
         bounds.append(bounds[-1] + s)
@@ -164,15 +270,70 @@ def run(p):
     ctx = {}
     keep = []
 
-    def bad(symptom, msg, **extra):
+    def bad(symptom, msg, **extra_sig):
         s = {"ds": ds, "symptom": symptom}
         s.update(ctx)
-        s.update(extra)
+        s.update(extra_sig)
         k = repr(sorted(s.items(), key=str))
         if k not in sigs:
             sigs[k] = s
             if not detail[0]:
                 detail[0] = msg
+
+    def kind_of_dtype(a):
+        a = getattr(a, "numpy_dtype", a) if type(a).__name__ == "NumpyEADtype" else a
+        k = O.dtype_kind(a)
+        return k if k[0] != "category" else ("category",)
+
+    def kind_of(frame, c):
+        return kind_of_dtype(frame[c].array.dtype)
+
+    def cat_info(series):
+        import pandas as pd
+        dt = series.dtype
+        if not isinstance(dt, pd.CategoricalDtype):
+            return None
+        return bool(dt.ordered), [O.canon_cell(x) for x in dt.categories.tolist()]
+
+    class Ref:
+        """one full read of the root with every column as a plain column (index=False) under given options"""
+        def __init__(self, **kw):
+            self.frame = root.to_pandas(index=False, **kw)
+            self.names = [str(c) for c in self.frame.columns]
+            self.cols = {c: O.series_to_list(self.frame[c]) for c in self.names}
+            self.kind = {c: kind_of(self.frame, c) for c in self.names}
+            self.cat = {c: cat_info(self.frame[c]) for c in self.names}
+            self.labels = str(self.frame.columns.dtype)
+
+    ref0 = Ref()
+    allcols = list(ref0.names)          # data, stored index and partition columns
+    # the default read of the root agrees with the all-columns read (one oracle, two views)
+    full = root.to_pandas()
+    for c in full.columns:
+        if O.first_diff(O.series_to_list(full[c]), ref0.cols[str(c)]) is not None or kind_of(full, c) != ref0.kind[str(c)]:
+            bad("full_inconsistent", "%s: column %s of the default full read differs from the index=False full read" % (ds, c))
+    refs = {}                            # categories variant -> Ref | None (root refuses the variant)
+    rootidx = {}                         # index=c read of the root -> (kind of index,) | None
+
+    def ref_for(cv):
+        key = repr(cv)
+        if key not in refs:
+            try:
+                refs[key] = Ref(categories=cv)
+            except Exception:
+                refs[key] = None
+        return refs[key]
+
+    def rootidx_for(c):
+        if c not in rootidx:
+            try:
+                f = root.to_pandas(index=c)
+                rootidx[c] = (kind_of_dtype(f.index.dtype), cat_info(f.index))
+                if O.first_diff(O.series_to_list(f.index.to_series()), ref0.cols[c]) is not None:
+                    bad("full_inconsistent", "%s: index=%r read of the root does not carry column %s" % (ds, c, c))
+            except Exception:
+                rootidx[c] = None
+        return rootidx[c]
 
     def rows_of(idx):
         out = []
@@ -180,26 +341,170 @@ def run(p):
             out.extend(range(bounds[g], bounds[g + 1]))
         return out
 
-    def terminal(pf, idx, how):
-        """all terminal reads in one state"""
-        rows = rows_of(idx)
-        nrows = len(rows)
-        what0 = "%s %s -> row groups %r" % (ds, how, list(idx))
-        # counts
+    def eff_index(index):
+        if index is None:
+            return list(index_names)
+        if index is False:
+            return []
+        if isinstance(index, str):
+            return [index]
+        return list(index)
+
+    def retyped(got, exp):
+        """signature field: the cells differ in type only (same text), e.g. 1 for '1'"""
+        same = len(got) == len(exp) and all(O.same_value(g, e) or (g is not None and e is not None and str(g) == str(e))
+                                            for g, e in zip(got, exp))
+        return {"retyped": True} if same else {}
+
+    def check_frame(df, cols, index, rows, what, op, ref=None, handle_empty=False):
+        """df = a read with columns=cols, index=index of the part `rows` (row numbers of the root)"""
+        ref = ref or ref0
+        eff = eff_index(index)
+        if handle_empty and cols is None:
+            # a handle without row groups has no paths to derive partition columns from: only the row count is judged
+            if len(df):
+                bad("rowcount", "%s: %d rows, the part is empty" % (what, len(df)), op=op)
+            return
+        req = list(cols) if cols is not None else list(allcols)
+        exp_cols = [c for c in req if c not in eff]
+        got_cols = [str(c) for c in df.columns]
+        if sorted(got_cols) != sorted(exp_cols) or (cols is not None and got_cols != exp_cols):
+            bad("columns", "%s: columns %r, expected %r" % (what, got_cols, exp_cols), op=op)
+            return
+        if len(df) != len(rows):
+            bad("rowcount", "%s: %d rows, the part has %d" % (what, len(df), len(rows)), op=op)
+            return
+        if got_cols and str(df.columns.dtype) != ref.labels:
+            bad("label_dtype", "%s: the column labels are an Index of dtype %s, in the full read of dtype %s" % (
+                what, df.columns.dtype, ref.labels), op=op)
+            return
+        for c in got_cols:
+            src = ref.cols.get(c)
+            if src is None:
+                continue
+            got = O.series_to_list(df[c])
+            exp = [src[r] for r in rows]
+            i = O.first_diff(got, exp)
+            if i is not None:
+                bad("values", "%s: column %s row %d is %r, the full read has %r" % (what, c, i, got[i], exp[i]), op=op, col=c,
+                    **retyped(got, exp))
+                return
+            if kind_of(df, c) != ref.kind[c]:
+                bad("dtype", "%s: column %s has dtype %s, the full read %s" % (what, c, df[c].array.dtype,
+                                                                            ref.frame[c].array.dtype),
+                    op=op, col=c, empty=not rows)
+                return
+            ci, cr = cat_info(df[c]), ref.cat[c]
+            if ci is not None and cr is not None:
+                if ci[0] != cr[0]:
+                    bad("cat_ordered", "%s: categorical %s has ordered=%r, the full read %r" % (what, c, ci[0], cr[0]), op=op, col=c)
+                    return
+                if any(not any(O.same_value(x, y) for y in cr[1]) for x in ci[1]):
+                    bad("cat_labels", "%s: categorical %s has labels %r, the full read %r" % (what, c, ci[1], cr[1]), op=op, col=c,
+                        **({"retyped": True} if all(str(x) in [str(y) for y in cr[1]] for x in ci[1]) else {}))
+                    return
+        if eff:
+            names = [str(x) if x is not None else None for x in df.index.names]
+            if names != eff:
+                bad("index_names", "%s: index names %r, expected %r" % (what, names, eff), op=op)
+                return
+            for lv, c in enumerate(eff):
+                src = ref0.cols.get(c)
+                if src is None:
+                    continue
+                vals = df.index.get_level_values(lv) if len(eff) > 1 else df.index
+                got = O.series_to_list(vals.to_series())
+                exp = [src[r] for r in rows]
+                i = O.first_diff(got, exp)
+                if i is not None:
+                    bad("index", "%s: index level %s row %d is %r, the full read has %r" % (what, c, i, got[i] if i >= 0 else None,
+                                                                                         exp[i] if i >= 0 else None), op=op, col=c,
+                        **retyped(got, exp))
+                    return
+            if len(eff) == 1:
+                want = rootidx_for(eff[0])
+                if want is not None:
+                    if kind_of_dtype(df.index.dtype) != want[0]:
+                        bad("index_dtype", "%s: index %s has dtype %s, the same read of the root %r" % (
+                            what, eff[0], df.index.dtype, want[0]), op=op, col=eff[0], empty=not rows)
+                    elif want[1] is not None and cat_info(df.index) is not None and cat_info(df.index)[0] != want[1][0]:
+                        bad("cat_ordered", "%s: categorical index %s lost its ordered flag" % (what, eff[0]), op=op, col=eff[0])
+
+    def check_counts(pf, idx, what0, when):
+        nrows = len(rows_of(idx))
         try:
             if pf.count() != nrows or len(pf) != len(idx) or pf.info["rows"] != nrows or pf.info["row_groups"] != len(idx):
-                bad("count", "%s: count()=%r len()=%r info=%r, the handle addresses %d rows in %d row groups" % (
-                    what0, pf.count(), len(pf), pf.info, nrows, len(idx)))
+                bad("count", "%s (%s): count()=%r len()=%r info=%r, the handle addresses %d rows in %d row groups" % (
+                    what0, when, pf.count(), len(pf), pf.info, nrows, len(idx)), when=when)
         except Exception as e:
-            bad("count_raised", "%s: %s: %s" % (what0, type(e).__name__, e))
-        maxk = 3 if thorough else 2
-        sels = [None]
-        for k in range(1, maxk + 1):
-            sels += [list(x) for x in itertools.permutations(columns, k)]
-        if not rows:
-            sels = [None]      # an empty handle knows no partition columns: only the plain read is judged
-        for cols in sels:
-            for index in ((None, False, index_name) if index_name else (None, False)):
+            bad("count_raised", "%s (%s): %s: %s" % (what0, when, type(e).__name__, e), when=when)
+
+    def check_image(pf, idx, what0, when, picklable):
+        """the handle as others would receive it now: pickled (copied when it holds a file object)"""
+        counts["reads"] += 1
+        how = "pickle" if picklable else "copy"
+        try:
+            img = pickle.loads(pickle.dumps(pf)) if picklable else copy.copy(pf)
+            df = img.to_pandas()
+        except Exception as e:
+            bad("read_raised", "%s (%s): %s image: %s: %s" % (what0, when, how, type(e).__name__, str(e)[:150]),
+                op="image", exc=type(e).__name__, when=when)
+            return
+        if len(img) != len(idx):
+            bad("count", "%s (%s): the %s image has %d row groups, the handle addresses %d" % (what0, when, how, len(img), len(idx)),
+                when=when, op="image")
+        check_frame(df, None, None, rows_of(idx), "%s (%s) %s image to_pandas()" % (what0, when, how), "image",
+                    handle_empty=not idx)
+
+    maxk = (2 if ds == "simple7" else 3) if thorough else (1 if ds in NARROW else 2)
+    sels = [None]
+    for k in range(1, maxk + 1):
+        sels += [list(x) for x in itertools.permutations(columns, k)]
+    index_modes = [None, False]
+    if len(index_names) == 1:
+        index_modes.append(index_names[0])
+    elif index_names:
+        index_modes.append(list(index_names))
+    catvars = ([[]] + [[c] for c in extra["cats"]]) if extra["cats"] else []
+    narrow_quick = ds in NARROW and not thorough
+
+    def terminal(pf, idx, how, picklable=True, level=1):
+        """all terminal reads in one state; the option menu (categories, every column as the index, head / iteration
+        with options) is enumerated in states reached in <= 1 step in the quick tier, in every state in thorough"""
+        rich = thorough or level <= 1
+        rows = rows_of(idx)
+        nrows = len(rows)
+        hempty = not idx
+        what0 = "%s %s -> row groups %r" % (ds, how, list(idx))
+        check_counts(pf, idx, what0, "before")
+        # ---- the categories argument first: what it leaves behind must not leak into the default reads below
+        for cv in (catvars if rich else []):
+            ref = ref_for(cv)
+            if ref is None:
+                continue           # the root refuses this variant: no oracle
+            counts["reads"] += 2
+            what = "%s to_pandas(categories=%r)" % (what0, cv)
+            try:
+                df = pf.to_pandas(categories=cv)
+            except Exception as e:
+                bad("read_raised", "%s: %s: %s" % (what, type(e).__name__, str(e)[:150]), op="to_pandas_cats", exc=type(e).__name__)
+                continue
+            check_frame(df, None, None, rows, what, "to_pandas_cats", ref=ref, handle_empty=hempty)
+            what = "%s iter_row_groups(categories=%r)" % (what0, cv)
+            try:
+                parts = list(pf.iter_row_groups(categories=cv))
+            except Exception as e:
+                bad("read_raised", "%s: %s: %s" % (what, type(e).__name__, str(e)[:150]), op="iter_cats", exc=type(e).__name__)
+                continue
+            want = [g for g in idx if sizes[g]]
+            if len(parts) != len(want):
+                bad("iter_parts", "%s: %d frames, %d non-empty row groups" % (what, len(parts), len(want)), op="iter_cats")
+                continue
+            for part, g in zip(parts, want):
+                check_frame(part, None, None, list(range(bounds[g], bounds[g + 1])), what, "iter_cats", ref=ref)
+        # ---- column selections x index modes
+        for cols in (sels if not hempty else [None]):
+            for index in index_modes:
                 counts["reads"] += 1
                 what = "%s to_pandas(columns=%r, index=%r)" % (what0, cols, index)
                 try:
@@ -207,9 +512,28 @@ def run(p):
                 except Exception as e:
                     bad("read_raised", "%s: %s: %s" % (what, type(e).__name__, str(e)[:150]), op="to_pandas", exc=type(e).__name__)
                     continue
-                check_frame(df, cols, index, rows, what, "to_pandas")
-        # iteration
-        for kw in ({}, {"columns": columns[:1]}, {"categories": None, "columns": list(reversed(columns))}):
+                check_frame(df, cols, index, rows, what, "to_pandas", handle_empty=hempty)
+        # ---- every column as the index; the stored index given as a list
+        if not hempty and rich:
+            for index in [c for c in allcols] + ([list(index_names)] if len(index_names) == 1 else []):
+                if isinstance(index, str) and rootidx_for(index) is None:
+                    continue       # the root cannot make this column the index: no oracle
+                counts["reads"] += 1
+                what = "%s to_pandas(index=%r)" % (what0, index)
+                try:
+                    df = pf.to_pandas(index=index)
+                except Exception as e:
+                    bad("read_raised", "%s: %s: %s" % (what, type(e).__name__, str(e)[:150]), op="to_pandas_index",
+                        exc=type(e).__name__, col=index if isinstance(index, str) else "list")
+                    continue
+                check_frame(df, None, index, rows, what, "to_pandas_index")
+        # ---- iteration
+        kws = [{}, {"columns": columns[:1]}, {"categories": None, "columns": list(reversed(columns))}]
+        if rich:
+            kws.append({"index": False})
+        if index_names and rich:
+            kws.append({"index": index_names[0] if len(index_names) == 1 else list(index_names), "columns": columns[:1]})
+        for kw in kws:
             counts["reads"] += 1
             what = "%s iter_row_groups(%r)" % (what0, kw)
             try:
@@ -219,63 +543,48 @@ def run(p):
                 continue
             want = [g for g in idx if sizes[g]]
             if len(parts) != len(want):
-                bad("iter_parts", "%s: %d frames, %d non-empty row groups" % (what, len(parts), len(want)))
+                bad("iter_parts", "%s: %d frames, %d non-empty row groups" % (what, len(parts), len(want)), op="iter")
                 continue
             for part, g in zip(parts, want):
-                check_frame(part, kw.get("columns"), None, list(range(bounds[g], bounds[g + 1])), what, "iter")
-        # head
+                check_frame(part, kw.get("columns"), kw.get("index"), list(range(bounds[g], bounds[g + 1])), what, "iter")
+        # ---- head
         for k in range(0, nrows + 2):
             counts["reads"] += 1
             what = "%s head(%d)" % (what0, k)
-            if not idx:
-                continue
             try:
                 h = pf.head(k)
             except Exception as e:
-                bad("read_raised", "%s: %s: %s" % (what, type(e).__name__, str(e)[:150]), op="head", exc=type(e).__name__)
+                bad("read_raised", "%s: %s: %s" % (what, type(e).__name__, str(e)[:150]), op="head", exc=type(e).__name__,
+                    handle_empty=hempty)
                 continue
-            check_frame(h, None, None, rows[:k], what, "head")
+            check_frame(h, None, None, rows[:k], what, "head", handle_empty=hempty)
+        if not hempty and rich:
+            for k in sorted({1, nrows}):
+                for kw in ({"columns": columns[:1]}, {"index": False}):
+                    counts["reads"] += 1
+                    what = "%s head(%d, %r)" % (what0, k, kw)
+                    try:
+                        h = pf.head(k, **kw)
+                    except Exception as e:
+                        bad("read_raised", "%s: %s: %s" % (what, type(e).__name__, str(e)[:150]), op="head_kw", exc=type(e).__name__)
+                        continue
+                    check_frame(h, kw.get("columns"), kw.get("index"), rows[:k], what, "head_kw")
+        # ---- reading (which derives handles internally) must leave the handle as it was
+        check_counts(pf, idx, what0, "after_reads")
+        check_image(pf, idx, what0, "after_reads", picklable)
 
-    def check_frame(df, cols, index, rows, what, op):
-        want_cols = list(cols) if cols is not None else [c for c in full.columns]
-        if index is None and index_name and cols is not None and index_name in want_cols:
-            want_cols = [c for c in want_cols if c != index_name]
-        got_cols = [str(c) for c in df.columns]
-        if not rows and cols is None:
-            # an empty selection has no paths to derive partition columns from: only the row count is judged
-            if len(df):
-                bad("rowcount", "%s: %d rows, the part is empty" % (what, len(df)), op=op)
-            return
-        exp_cols = [c for c in want_cols if not (index_name and c == index_name and index is None)]
-        if index is False and index_name and cols is None:
-            exp_cols = [c for c in full.columns] + [index_name]
-        if sorted(got_cols) != sorted(exp_cols) or (cols is not None and got_cols != exp_cols):
-            bad("columns", "%s: columns %r, expected %r" % (what, got_cols, exp_cols), op=op)
-            return
-        if len(df) != len(rows):
-            bad("rowcount", "%s: %d rows, the part has %d" % (what, len(df), len(rows)), op=op)
-            return
-        for c in got_cols:
-            src = fullcols.get(c)
-            if src is None and c == index_name:
-                src = fullidx
-            if src is None:
-                continue
-            got = O.series_to_list(df[c])
-            exp = [src[r] for r in rows]
-            i = O.first_diff(got, exp)
-            if i is not None:
-                bad("values", "%s: column %s row %d is %r, the full read has %r" % (what, c, i, got[i], exp[i]), op=op, col=c)
-                return
-            if c in fullkind and rows and kind_of(df, c) != fullkind[c]:
-                bad("dtype", "%s: column %s has dtype %s, the full read %s" % (what, c, df[c].array.dtype, full[c].array.dtype),
-                    op=op, col=c)
-                return
-        if index_name and index is None and "idx" not in got_cols:
-            got = O.series_to_list(df.index.to_series())
-            exp = [fullidx[r] for r in rows]
-            if O.first_diff(got, exp) is not None:
-                bad("index", "%s: index %r, the full read has %r" % (what, got[:6], exp[:6]), op=op)
+    def undisturbed(pf, idx, how, picklable):
+        """deriving and reading children must not disturb the parent"""
+        what0 = "%s %s" % (ds, how)
+        check_counts(pf, idx, what0, "after_derivations")
+        counts["reads"] += 1
+        try:
+            again = pf.to_pandas()
+            check_frame(again, None, None, rows_of(idx), "%s: parent read after derivations" % what0, "parent",
+                        handle_empty=not idx)
+        except Exception as e:
+            bad("parent_disturbed", "%s: parent read raises after derivations: %s" % (what0, e))
+        check_image(pf, idx, what0, "after_derivations", picklable)
 
     # ---- level 1
     slices = slices_for(n)
@@ -288,6 +597,14 @@ def run(p):
     elif first == "slice":
         for idx, w in slices.items():
             level1.append(("slice", w, idx))
+    elif first == "filelist":
+        level1.append(("root", None, tuple(range(n))))
+        level1.append(("pickle", None, tuple(range(n))))
+        for i in range(n):
+            level1.append(("pick", i, (i,)))
+        if thorough:
+            for idx, w in slices.items():
+                level1.append(("slice", w, idx))
     else:
         if first == "fileobj" and not single_file:
             return {"ok": True, "outcome": "not_applicable", "nontrivial": False}
@@ -303,20 +620,24 @@ def run(p):
         except Exception as e:
             bad("derive_raised", "%s %s: %s: %s" % (ds, how, type(e).__name__, e))
             continue
+        # a handle opened on a file object cannot be pickled (the file object is not picklable): copied instead
+        picklable = kind != "fileobj"
         key = (idx, kind)
         if key not in seen:
             seen.add(key)
             counts["states"] += 1
-            terminal(h1, idx, how)
+            terminal(h1, idx, how, picklable, level=0 if kind == "root" else 1)
         if kind == "root":
             continue
         # ---- level 2
         m = len(idx)
-        # a handle opened on a file object cannot be pickled (the file object is not picklable): excluded
         second = [("copy", None)] if kind == "fileobj" else [("pickle", None), ("copy", None), ("deepcopy", None)]
+        if narrow_quick:
+            second = [x for x in second if x[0] == "pickle"]
         second += [("pick", i) for i in range(-m, m)]
         sl2 = slices_for(m)
-        second += [("slice", w) for w in sl2.values()]
+        if not (narrow_quick and kind == "slice"):
+            second += [("slice", w) for w in sl2.values()]
         for kind2, arg2 in second:
             if kind2 == "pick":
                 idx2 = (idx[arg2],)
@@ -338,16 +659,13 @@ def run(p):
                 continue
             seen.add(key)
             counts["states"] += 1
-            terminal(h2, idx2, how2)
-        # deriving must not disturb the parent
+            terminal(h2, idx2, how2, picklable, level=2)
         ctx.clear()
         ctx.update({"d1": kind, "after": "derivations"})
-        try:
-            again = h1.to_pandas()
-            if len(again) != len(rows_of(idx)):
-                bad("parent_disturbed", "%s %s: after deriving handles the parent reads %d rows, had %d" % (ds, how, len(again), len(rows_of(idx))))
-        except Exception as e:
-            bad("parent_disturbed", "%s %s: parent read raises after derivations: %s" % (ds, how, e))
+        undisturbed(h1, idx, how, picklable)
+    ctx.clear()
+    ctx.update({"d1": "root", "after": "derivations"})
+    undisturbed(root, tuple(range(n)), "root", True)
     for f in keep:
         try:
             f.close()
@@ -359,10 +677,15 @@ def run(p):
 
 
 LEVEL_TEXT = ("Explicit-state exploration of the handle-derivation graph (all picks, all distinct slices incl. negative and "
-              "out-of-range bounds and steps, pickle/copy/deepcopy/re-open/file-object, depth 2) on six datasets; in "
-              "every reachable state the complete menu of terminal reads (all ordered column subsets, index modes, "
-              "iteration variants, head(n) for every n, counts) is compared with the projection of a single full read - "
-              "a differential oracle with no hand-written expected values.")
+              "out-of-range bounds and steps, pickle/copy/deepcopy/re-open/file-object/list-of-files, depth 2) on "
+              "thirteen datasets (self-made and foreign files: two columns in one dtype block, per-row-group "
+              "dictionaries and NULL statistics, PLAIN fallback pages, untyped partition directories, int / tz-aware "
+              "datetime / two-level stored indexes, a file without row groups); in every reachable state the "
+              "complete menu of terminal reads (ordered column subsets, index modes incl. every column as the index, "
+              "the categories argument, iteration variants, head(n) for every n with and without options, counts) is "
+              "compared with the projection of the root's full reads under the same options - a differential oracle "
+              "with no hand-written expected values - and the handle is re-examined (counts, values, pickled image) "
+              "after its own reads and after its children were derived and read.")
 LEVEL_NOTE = ("Trusted: Python slicing semantics of range() as the model of row-group selection; pandas value extraction. "
               "States merged when they address the same row groups through the same kinds of derivation.")
 TECHNIQUE = "explicit-state BFS over derived handles x exhaustive terminal reads, differential against the full read"
